@@ -48,6 +48,12 @@ CLAIMS['C16'] = dict(cat='model_checking', ref='DESIGN.md §4 C16',
          'within the bounds that each configuration satisfies the same oracle (hence identical results) and that no library assertion is reachable on valid use.',
     note='equality of configurations is derived through the common oracle, not by a product program; spin-wait variants are indistinguishable single-threaded; OLC-specific assertions are covered under C14/C01-olc where built.')
 
+CLAIMS['C13'] = dict(cat='model_checking', ref='DESIGN.md §4 C13',
+    text='SAT decides the lock discipline of every public mutex_db method for all 2^64 keys on a small tree: the inner index is only entered with the index mutex held (assertions injected at the '
+         'entry of the real inner functions), every method returns with it released, get() returns a lock-owning handle exactly on a hit and the handle releases it.',
+    note='std::mutex = ghost owner flag (trusted semantics). Linearizability under free-running threads follows from this discipline by argument only; thread schedules and the "thousands of runs" of the '
+         'quantifier are not reproduced (that part is sampling by nature).')
+
 NOT_APPLICABLE = {
 }
 
